@@ -110,6 +110,9 @@ pub enum Fault {
     Garbage { len: usize, kind: u8 },
     /// C04 only: a valid ciphertext with a run of bytes replaced
     Splice { at: usize, n: usize, fill: u64 },
+    /// C04 only: the peer's public key handed to the opener is replaced
+    /// (0 zeros, 1 0xff.., 2 u=1, 3 a small-order point, 4 p-1, 5 p, 6 random, 7 one flipped bit)
+    PeerKey { kind: u8, bit: usize },
 }
 
 impl Fault {
@@ -127,6 +130,7 @@ impl Fault {
             Fault::Extend { .. } => "extend",
             Fault::Garbage { .. } => "garbage",
             Fault::Splice { .. } => "splice",
+            Fault::PeerKey { .. } => "peerkey",
         }
     }
 }
@@ -182,6 +186,8 @@ pub struct BoxWorld {
     // policy state
     plan: Vec<Event>,
     planned: bool,
+    /// C17: error text of rejected deliveries, keyed by the lengths the receiver saw
+    err_texts: std::collections::BTreeMap<(usize, usize), String>,
 }
 
 pub fn install_rng(seed: u64) {
@@ -246,6 +252,34 @@ struct Delivered {
     body: Vec<u8>,
     combined: Vec<u8>,
     key: [u8; 32],
+    peer_pk: [u8; 32],
+}
+
+fn special_point(kind: u8, bit: usize, honest: &[u8; 32]) -> [u8; 32] {
+    let mut p = [0u8; 32];
+    match kind % 8 {
+        0 => {}
+        1 => p = [0xff; 32],
+        2 => p[0] = 1,
+        3 => p = [0xe0, 0xeb, 0x7a, 0x7c, 0x3b, 0x41, 0xb8, 0xae, 0x16, 0x56, 0xe3, 0xfa, 0xf1, 0x9f, 0xc4, 0x6a, 0xda, 0x09, 0x8d, 0xeb, 0x9c, 0x32, 0xb1, 0xfd, 0x86, 0x62, 0x05, 0x16, 0x5f, 0x49, 0xb8, 0x00],
+        4 => {
+            p = [0xff; 32];
+            p[0] = 0xec;
+            p[31] = 0x7f;
+        }
+        5 => {
+            p = [0xff; 32];
+            p[0] = 0xed;
+            p[31] = 0x7f;
+        }
+        6 => p = pattern(bit as u64 * 4, 32).try_into().unwrap(),
+        _ => {
+            p = *honest;
+            let b = bit % 256;
+            p[b / 8] ^= 1 << (b % 8);
+        }
+    }
+    p
 }
 
 impl BoxWorld {
@@ -375,7 +409,7 @@ impl BoxWorld {
     /// Apply one fault to the tuple in the representation the receiver form consumes.
     fn corrupt(&self, p: &Packet, fault: &Fault, out: &mut Out) -> Delivered {
         let rf = self.cfg.rform;
-        let mut d = Delivered { nonce: p.nonce, mac: p.mac, body: p.body.clone(), combined: p.combined(), key: self.sym_key() };
+        let mut d = Delivered { nonce: p.nonce, mac: p.mac, body: p.body.clone(), combined: p.combined(), key: self.sym_key(), peer_pk: self.a_pk };
         let epk_len = if p.epk.is_some() { 32 } else { 0 };
         let flip = |buf: &mut [u8], bit: usize| -> bool {
             if buf.is_empty() {
@@ -459,6 +493,19 @@ impl BoxWorld {
                     d.mac = pattern(*kind as u64 * 4 + 2000, 16).try_into().unwrap();
                 }
             }
+            Fault::PeerKey { kind, bit } => {
+                // only the openers that take the sender's public key
+                if self.cfg.suite == Suite::Box && !rf.uses_symmetric_key(self.cfg.suite) {
+                    d.peer_pk = special_point(*kind, *bit, &self.a_pk);
+                    fired = d.peer_pk != self.a_pk;
+                } else if self.cfg.suite == Suite::Sealed && rf.combined() {
+                    let e = special_point(*kind, *bit, &p.epk.unwrap_or([0; 32]));
+                    fired = d.combined[..32] != e[..];
+                    d.combined[..32].copy_from_slice(&e);
+                } else {
+                    fired = false;
+                }
+            }
             Fault::Splice { at, n, fill } => {
                 let buf = if rf.combined() { &mut d.combined } else { &mut d.body };
                 if buf.is_empty() || *n == 0 {
@@ -479,7 +526,7 @@ impl BoxWorld {
 
     fn identical(&self, p: &Packet, d: &Delivered) -> bool {
         let rf = self.cfg.rform;
-        let key_same = !rf.uses_symmetric_key(self.cfg.suite) || d.key == self.sym_key();
+        let key_same = (!rf.uses_symmetric_key(self.cfg.suite) || d.key == self.sym_key()) && d.peer_pk == self.a_pk;
         let nonce_same = p.epk.is_some() || d.nonce == p.nonce;
         if rf.combined() {
             key_same && nonce_same && d.combined == p.combined()
@@ -491,12 +538,13 @@ impl BoxWorld {
 
     /// Run the receiver. Returns (result, C17 observation).
     /// result: Ok(Some(plaintext)) accepted, Ok(None) rejected, Err = unwound.
-    fn receive(&self, p: &Packet, d: &Delivered) -> (Result<Option<Vec<u8>>, (String, String)>, Option<C17Obs>, usize) {
+    fn receive(&self, p: &Packet, d: &Delivered) -> (Result<Option<Vec<u8>>, (String, String)>, Option<C17Obs>, usize, Option<String>) {
         let suite = self.cfg.suite;
         let rf = self.cfg.rform;
         let overhead = if suite == Suite::Sealed { 48 } else { 16 };
         let mut obs: Option<C17Obs> = None;
-        let a_pk = self.a_pk;
+        let mut err_text: Option<String> = None;
+        let a_pk = d.peer_pk;
         let b_pk = self.b_pk;
         let b_sk = self.b_sk;
         crate::kit::alloc::arm();
@@ -507,119 +555,119 @@ impl BoxWorld {
                     let before = m.clone();
                     let r = crypto_secretbox_open_easy(&mut m, &d.combined, &d.nonce, &d.key);
                     obs = Some(C17Obs { before, after: m.clone(), ok: r.is_ok() });
-                    r.ok().map(|_| m)
+                    r.map_err(|e| { err_text = Some(format!("{:?}", e)); e }).ok().map(|_| m)
                 }
                 (Suite::Secretbox, RForm::OpenDetached) => {
                     let mut m = vec![SENTINEL; d.body.len()];
                     let before = m.clone();
                     let r = crypto_secretbox_open_detached(&mut m, &d.mac, &d.body, &d.nonce, &d.key);
                     obs = Some(C17Obs { before, after: m.clone(), ok: r.is_ok() });
-                    r.ok().map(|_| m)
+                    r.map_err(|e| { err_text = Some(format!("{:?}", e)); e }).ok().map(|_| m)
                 }
                 (Suite::Secretbox, RForm::OpenEasyInplace) => {
                     let mut m = d.combined.clone();
                     let before = m.clone();
                     let r = crypto_secretbox_open_easy_inplace(&mut m, &d.nonce, &d.key);
                     obs = Some(C17Obs { before, after: m.clone(), ok: r.is_ok() });
-                    r.ok().map(|_| m[..m.len() - 16].to_vec())
+                    r.map_err(|e| { err_text = Some(format!("{:?}", e)); e }).ok().map(|_| m[..m.len() - 16].to_vec())
                 }
                 (Suite::Secretbox, RForm::ObjFromBytesDecrypt) => {
-                    let b: DryocSecretBox<dryoc::dryocsecretbox::Mac, Vec<u8>> = DryocSecretBox::from_bytes(&d.combined).ok()?;
-                    b.decrypt::<Vec<u8>, _, _>(&d.nonce, &d.key).ok()
+                    let b: DryocSecretBox<dryoc::dryocsecretbox::Mac, Vec<u8>> = DryocSecretBox::from_bytes(&d.combined).map_err(|e| { err_text = Some(format!("{:?}", e)); e }).ok()?;
+                    b.decrypt::<Vec<u8>, _, _>(&d.nonce, &d.key).map_err(|e| { err_text = Some(format!("{:?}", e)); e }).ok()
                 }
                 (Suite::Secretbox, RForm::ObjFromPartsDecryptToVec) => {
                     let b = dryoc::dryocsecretbox::VecBox::from_parts(d.mac.into(), d.body.clone());
-                    b.decrypt_to_vec(&d.nonce, &d.key).ok()
+                    b.decrypt_to_vec(&d.nonce, &d.key).map_err(|e| { err_text = Some(format!("{:?}", e)); e }).ok()
                 }
                 (Suite::Box, RForm::OpenEasy) => {
                     let mut m = vec![SENTINEL; d.combined.len().saturating_sub(16)];
                     let before = m.clone();
                     let r = crypto_box_open_easy(&mut m, &d.combined, &d.nonce, &a_pk, &b_sk);
                     obs = Some(C17Obs { before, after: m.clone(), ok: r.is_ok() });
-                    r.ok().map(|_| m)
+                    r.map_err(|e| { err_text = Some(format!("{:?}", e)); e }).ok().map(|_| m)
                 }
                 (Suite::Box, RForm::OpenDetached) => {
                     let mut m = vec![SENTINEL; d.body.len()];
                     let before = m.clone();
                     let r = crypto_box_open_detached(&mut m, &d.mac, &d.body, &d.nonce, &a_pk, &b_sk);
                     obs = Some(C17Obs { before, after: m.clone(), ok: r.is_ok() });
-                    r.ok().map(|_| m)
+                    r.map_err(|e| { err_text = Some(format!("{:?}", e)); e }).ok().map(|_| m)
                 }
                 (Suite::Box, RForm::OpenEasyInplace) => {
                     let mut m = d.combined.clone();
                     let before = m.clone();
                     let r = crypto_box_open_easy_inplace(&mut m, &d.nonce, &a_pk, &b_sk);
                     obs = Some(C17Obs { before, after: m.clone(), ok: r.is_ok() });
-                    r.ok().map(|_| m[..m.len() - 16].to_vec())
+                    r.map_err(|e| { err_text = Some(format!("{:?}", e)); e }).ok().map(|_| m[..m.len() - 16].to_vec())
                 }
                 (Suite::Box, RForm::OpenDetachedInplace) => {
                     let mut m = d.body.clone();
                     let before = m.clone();
                     let r = crypto_box_open_detached_inplace(&mut m, &d.mac, &d.nonce, &a_pk, &b_sk);
                     obs = Some(C17Obs { before, after: m.clone(), ok: r.is_ok() });
-                    r.ok().map(|_| m)
+                    r.map_err(|e| { err_text = Some(format!("{:?}", e)); e }).ok().map(|_| m)
                 }
                 (Suite::Box, RForm::OpenDetachedAfternm) => {
                     let mut m = vec![SENTINEL; d.body.len()];
                     let before = m.clone();
                     let r = crypto_box_open_detached_afternm(&mut m, &d.mac, &d.body, &d.nonce, &d.key);
                     obs = Some(C17Obs { before, after: m.clone(), ok: r.is_ok() });
-                    r.ok().map(|_| m)
+                    r.map_err(|e| { err_text = Some(format!("{:?}", e)); e }).ok().map(|_| m)
                 }
                 (Suite::Box, RForm::OpenDetachedAfternmInplace) => {
                     let mut m = d.body.clone();
                     let before = m.clone();
                     let r = crypto_box_open_detached_afternm_inplace(&mut m, &d.mac, &d.nonce, &d.key);
                     obs = Some(C17Obs { before, after: m.clone(), ok: r.is_ok() });
-                    r.ok().map(|_| m)
+                    r.map_err(|e| { err_text = Some(format!("{:?}", e)); e }).ok().map(|_| m)
                 }
                 (Suite::Box, RForm::ObjFromBytesDecrypt) => {
-                    let b: DryocBox<dryoc::dryocbox::PublicKey, dryoc::dryocbox::Mac, Vec<u8>> = DryocBox::from_bytes(&d.combined).ok()?;
-                    b.decrypt::<_, _, _, Vec<u8>>(&d.nonce, &a_pk, &b_sk).ok()
+                    let b: DryocBox<dryoc::dryocbox::PublicKey, dryoc::dryocbox::Mac, Vec<u8>> = DryocBox::from_bytes(&d.combined).map_err(|e| { err_text = Some(format!("{:?}", e)); e }).ok()?;
+                    b.decrypt::<_, _, _, Vec<u8>>(&d.nonce, &a_pk, &b_sk).map_err(|e| { err_text = Some(format!("{:?}", e)); e }).ok()
                 }
                 (Suite::Box, RForm::ObjFromPartsDecryptToVec) => {
                     let b = dryoc::dryocbox::VecBox::from_parts(d.mac.into(), d.body.clone(), None);
-                    b.decrypt_to_vec(&d.nonce.into(), &a_pk.into(), &b_sk).ok()
+                    b.decrypt_to_vec(&d.nonce.into(), &a_pk.into(), &b_sk).map_err(|e| { err_text = Some(format!("{:?}", e)); e }).ok()
                 }
                 (Suite::Box, RForm::ObjPrecalcDecrypt) => {
                     let b = dryoc::dryocbox::VecBox::from_parts(d.mac.into(), d.body.clone(), None);
                     let k: StackByteArray<32> = d.key.into();
-                    b.precalc_decrypt_to_vec(&d.nonce.into(), &k).ok()
+                    b.precalc_decrypt_to_vec(&d.nonce.into(), &k).map_err(|e| { err_text = Some(format!("{:?}", e)); e }).ok()
                 }
                 (Suite::Sealed, RForm::SealOpen) => {
                     let mut m = vec![SENTINEL; d.combined.len().saturating_sub(48)];
                     let before = m.clone();
                     let r = crypto_box_seal_open(&mut m, &d.combined, &b_pk, &b_sk);
                     obs = Some(C17Obs { before, after: m.clone(), ok: r.is_ok() });
-                    r.ok().map(|_| m)
+                    r.map_err(|e| { err_text = Some(format!("{:?}", e)); e }).ok().map(|_| m)
                 }
                 (Suite::Sealed, RForm::ObjFromSealedBytesUnseal) => {
-                    let b: DryocBox<dryoc::dryocbox::PublicKey, dryoc::dryocbox::Mac, Vec<u8>> = DryocBox::from_sealed_bytes(&d.combined).ok()?;
+                    let b: DryocBox<dryoc::dryocbox::PublicKey, dryoc::dryocbox::Mac, Vec<u8>> = DryocBox::from_sealed_bytes(&d.combined).map_err(|e| { err_text = Some(format!("{:?}", e)); e }).ok()?;
                     let kp = dryoc::dryocbox::KeyPair::from_slices(&b_pk, &b_sk).expect("kp");
-                    b.unseal::<_, _, Vec<u8>>(&kp).ok()
+                    b.unseal::<_, _, Vec<u8>>(&kp).map_err(|e| { err_text = Some(format!("{:?}", e)); e }).ok()
                 }
                 (Suite::Sealed, RForm::ObjFromPartsUnsealToVec) => {
                     let e: dryoc::dryocbox::PublicKey = p.epk.expect("sealed packet").into();
                     let b = dryoc::dryocbox::VecBox::from_parts(d.mac.into(), d.body.clone(), Some(e));
                     let kp = dryoc::dryocbox::KeyPair::from_slices(&b_pk, &b_sk).expect("kp");
-                    b.unseal_to_vec(&kp).ok()
+                    b.unseal_to_vec(&kp).map_err(|e| { err_text = Some(format!("{:?}", e)); e }).ok()
                 }
                 #[cfg(feature = "nightly")]
                 (s, RForm::ObjFromBytesHeap) => {
                     use dryoc::protected::*;
                     match s {
                         Suite::Secretbox => {
-                            let b: DryocSecretBox<dryoc::dryocsecretbox::Mac, HeapBytes> = DryocSecretBox::from_bytes(&d.combined).ok()?;
-                            b.decrypt::<HeapBytes, _, _>(&d.nonce, &d.key).ok().map(|m| m.as_slice().to_vec())
+                            let b: DryocSecretBox<dryoc::dryocsecretbox::Mac, HeapBytes> = DryocSecretBox::from_bytes(&d.combined).map_err(|e| { err_text = Some(format!("{:?}", e)); e }).ok()?;
+                            b.decrypt::<HeapBytes, _, _>(&d.nonce, &d.key).map_err(|e| { err_text = Some(format!("{:?}", e)); e }).ok().map(|m| m.as_slice().to_vec())
                         }
                         Suite::Box => {
-                            let b: DryocBox<dryoc::dryocbox::PublicKey, dryoc::dryocbox::Mac, HeapBytes> = DryocBox::from_bytes(&d.combined).ok()?;
-                            b.decrypt::<_, _, _, HeapBytes>(&d.nonce, &a_pk, &b_sk).ok().map(|m| m.as_slice().to_vec())
+                            let b: DryocBox<dryoc::dryocbox::PublicKey, dryoc::dryocbox::Mac, HeapBytes> = DryocBox::from_bytes(&d.combined).map_err(|e| { err_text = Some(format!("{:?}", e)); e }).ok()?;
+                            b.decrypt::<_, _, _, HeapBytes>(&d.nonce, &a_pk, &b_sk).map_err(|e| { err_text = Some(format!("{:?}", e)); e }).ok().map(|m| m.as_slice().to_vec())
                         }
                         Suite::Sealed => {
-                            let b: DryocBox<dryoc::dryocbox::PublicKey, dryoc::dryocbox::Mac, HeapBytes> = DryocBox::from_sealed_bytes(&d.combined).ok()?;
+                            let b: DryocBox<dryoc::dryocbox::PublicKey, dryoc::dryocbox::Mac, HeapBytes> = DryocBox::from_sealed_bytes(&d.combined).map_err(|e| { err_text = Some(format!("{:?}", e)); e }).ok()?;
                             let kp = dryoc::dryocbox::KeyPair::from_slices(&b_pk, &b_sk).expect("kp");
-                            b.unseal::<_, _, HeapBytes>(&kp).ok().map(|m| m.as_slice().to_vec())
+                            b.unseal::<_, _, HeapBytes>(&kp).map_err(|e| { err_text = Some(format!("{:?}", e)); e }).ok().map(|m| m.as_slice().to_vec())
                         }
                     }
                 }
@@ -629,11 +677,11 @@ impl BoxWorld {
                     match s {
                         Suite::Secretbox => {
                             let b = dryoc::dryocsecretbox::VecBox::from_parts(d.mac.into(), d.body.clone());
-                            b.decrypt::<LockedBytes, _, _>(&d.nonce, &d.key).ok().map(|m| m.as_slice().to_vec())
+                            b.decrypt::<LockedBytes, _, _>(&d.nonce, &d.key).map_err(|e| { err_text = Some(format!("{:?}", e)); e }).ok().map(|m| m.as_slice().to_vec())
                         }
                         _ => {
                             let b = dryoc::dryocbox::VecBox::from_parts(d.mac.into(), d.body.clone(), None);
-                            b.decrypt::<_, _, _, LockedBytes>(&d.nonce, &a_pk, &b_sk).ok().map(|m| m.as_slice().to_vec())
+                            b.decrypt::<_, _, _, LockedBytes>(&d.nonce, &a_pk, &b_sk).map_err(|e| { err_text = Some(format!("{:?}", e)); e }).ok().map(|m| m.as_slice().to_vec())
                         }
                     }
                 }
@@ -642,7 +690,7 @@ impl BoxWorld {
         });
         let peak = crate::kit::alloc::disarm();
         let _ = overhead;
-        (r, obs, peak)
+        (r, obs, peak, err_text)
     }
 }
 
@@ -693,7 +741,7 @@ impl World for BoxWorld {
         let sb_key = crypto_secretbox_keygen();
         let (a_pk, a_sk) = crypto_box_keypair();
         let (b_pk, b_sk) = crypto_box_keypair();
-        BoxWorld { cfg: cfg.clone(), sb_key, a_pk, a_sk, b_pk, b_sk, packets: Vec::new(), plan: Vec::new(), planned: false }
+        BoxWorld { cfg: cfg.clone(), sb_key, a_pk, a_sk, b_pk, b_sk, packets: Vec::new(), plan: Vec::new(), planned: false, err_texts: std::collections::BTreeMap::new() }
     }
 
     fn next_event(&mut self, rng: &mut Rng) -> Option<Event> {
@@ -722,7 +770,13 @@ impl World for BoxWorld {
                                 0..=3 => Fault::Truncate { k: 1 + rng.usize_below(wire) },
                                 4..=5 => Fault::Garbage { len: rng.usize_below(2 * overhead + 65), kind: rng.below(9) as u8 },
                                 6 => Fault::Extend { k: 1 + rng.usize_below(40), fill: rng.below(256) as u8 },
-                                7 => Fault::Splice { at: rng.usize_below(wire.max(1)), n: 1 + rng.usize_below(20), fill: rng.next_u64() % 1000 },
+                                7 => {
+                                    if rng.chance(1, 2) {
+                                        Fault::Splice { at: rng.usize_below(wire.max(1)), n: 1 + rng.usize_below(20), fill: rng.next_u64() % 1000 }
+                                    } else {
+                                        Fault::PeerKey { kind: rng.below(8) as u8, bit: rng.usize_below(256) }
+                                    }
+                                }
                                 _ => Fault::Flip { comp: *rng.pick(&[Comp::Tag, Comp::Body, Comp::Nonce, Comp::Epk, Comp::Key]), bit: rng.usize_below(8 * wire.max(32)) },
                             }
                         } else {
@@ -768,7 +822,7 @@ impl World for BoxWorld {
                 let identical = self.identical(&p, &d);
                 let overhead = if suite == Suite::Sealed { 48 } else { 16 };
                 let wire_len = if rf.combined() { d.combined.len() } else { d.body.len() + overhead };
-                let (res, obs, peak) = self.receive(&p, &d);
+                let (res, obs, peak, err_text) = self.receive(&p, &d);
                 out.op();
                 out.shape(&format!("D{}{}{}", rf.name(), fault.kind(), identical));
                 let verdict = match &res {
@@ -837,6 +891,26 @@ impl World for BoxWorld {
                         out.probe("deliver.corrupted.rejected");
                         if res.is_err() {
                             out.probe("deliver.corrupted.rejected_by_unwind");
+                        }
+                    }
+                }
+                // ---- C17: the error value itself must not carry anything derived from the
+                // rejected ciphertext: two rejections of deliveries with the same lengths
+                // must read the same
+                if let (Ok(None), Some(t)) = (&res, &err_text) {
+                    let key = (d.combined.len(), d.body.len());
+                    match self.err_texts.get(&key) {
+                        Some(prev) if prev != t => {
+                            out.violate(
+                                "C17",
+                                "c17.errtext",
+                                site(&[("receiver", &format!("{}.{}", suite_s, rf.name()))]),
+                                format!("two rejected deliveries of identical lengths produced different error values, so the error depends on the rejected bytes: {:?} vs {:?}", prev, t),
+                            );
+                        }
+                        Some(_) => out.probe("c17.errtext_compared"),
+                        None => {
+                            self.err_texts.insert(key, t.clone());
                         }
                     }
                 }
